@@ -424,7 +424,7 @@ def replay_state(torch, cfg, pat, hist, knames, thorough):
         elif last["op"] == "transpose":
             oref = D.mT
         cell = cell_of(cfg, pat, hist)
-        if kn != "stub" and stub_ok and last["op"] == "getitem" and 0 in list(last["eshape"]):
+        if kn != "stub" and stub_ok and last["op"] == "getitem" and 0 in list(last["eshape"]) and str(last["cls"]) in ("none", "slice-stop-0", "row-or-col-int(-1)"):
             # the generic stub passes and the expected result is empty: this kernel's operator cannot represent an empty selection
             cell = "/".join(cell.split("/")[:3]) + "/empty-result/only:" + kn
         elif kn != "stub" and stub_ok and cell.split("/")[-1].startswith("plain"):
@@ -493,6 +493,8 @@ def replay_kernel_op(torch, cfg, pat, hist, knames, desc):
             a1, a2, oref = x1, x2, D.expand(*shape, *D.shape[-2:])
         if kn == "stub":
             res["sample"] = dict(case=desc, expect_batch_shape=list(h["eshape"]), expect_param_labels=list(h["edata"])[:8], model_agrees=bool(h["agree"]))
+        if ok:
+            core.guarded(lambda: k2.train(k.training))  # (whether a copy keeps the train / eval mode is not C06's question)
         if not ok:
             res.update(ok=False, sig=cell, detail="%s%s: raised %s" % (desc, who, k2))
         else:
@@ -856,7 +858,8 @@ def replay(rep):
         res = _zoo_worker(dict(kernel=case["kernel"], pats=case["pats"], seed=case.get("seed", rep.get("seed", 0))))
         res = [r for r in res if r.get("sig") == rep["signature"]] or res
     else:
-        res = replay_state(torch, case["cfg"], case["pat"], case["hist"], [case["kernel"]], True)
+        names = ["stub"] + ([case["kernel"]] if case["kernel"] != "stub" else [])  # the stub decides the '/only:<kernel>' suffix
+        res = [r for r in replay_state(torch, case["cfg"], case["pat"], case["hist"], names, True) if r.get("machinery") or r["key"][-1] == case["kernel"]]
     rc = 0
     for r in res:
         if r.get("machinery"):
